@@ -498,10 +498,11 @@ func (s *Snapshotter) compact() error {
 
 	// We now need to swap the old snapshot file with the new snapshot.
 	// Turns out, Windows won't let us rename the files if we have
-	// open handles to them or if the destination already exists. This
-	// means we are forced to close the existing handles, delete the
-	// old file, move the new one in place, and then re-open the file
-	// handles.
+	// open handles to them. This means we are forced to close the
+	// existing handles, move the new file in place, and then re-open
+	// the file handles. The old file is not deleted first: the rename
+	// replaces it, so that a crash at any point leaves either the old
+	// or the new snapshot under the snapshot path, never nothing.
 
 	// Flush the existing snapshot, ignoring errors since we will
 	// delete it momentarily.
@@ -512,11 +513,6 @@ func (s *Snapshotter) compact() error {
 	// the closed file report errors, which makes tryAppend come back here,
 	// instead of the nil handles crashing the next append or the shutdown.
 	s.fh.Close()
-
-	// Delete the old file
-	if err := os.Remove(s.path); err != nil {
-		return fmt.Errorf("failed to remove old snapshot: %v", err)
-	}
 
 	// Move the new file into place
 	if err := os.Rename(newPath, s.path); err != nil {
